@@ -1,71 +1,113 @@
-"""C03 — regenerate lean/RV/C03/Tables.lean from rdflib's source (DESIGN §2.4).
+"""C03 — regenerate lean/RV/C03/Tables.lean from rdflib's BEHAVIOUR (DESIGN §2.4).
 
-Extracts, with `ast`, the `str.replace(pattern, replacement)` chains that the literal writers apply:
-  rdflib/plugins/serializers/nt.py:_quote_encode           -> ntChain
-  rdflib/term.py:Literal._quote_encode  (else branch)      -> shortChain
-  rdflib/term.py:Literal._quote_encode  ("\\n" in self)    -> longStep1, longStep2 (the `\"\"\"` step), longStep3
-and rdflib/compat.py:_string_escape_map (what the readers accept as ECHAR) -> echarMap.
-A source whose shape can no longer be read this way raises (core: broken correspondence -> search).
+The literal writers are probed through the public serializers (a one-triple graph written as N-Triples / Turtle,
+the object text read off), never through their source text, so a rewrite that keeps the output (chained
+`.replace`, `str.translate`, a regex, …) regenerates the same table:
+
+  ntMap     character -> text the N-Triples writer puts between the quotes, for every character of the probe alphabet
+            that is not written as itself
+  shortMap  the same for the Turtle writer's short form `"…"` (texts without a newline)
+  longMap   the same for its long form `\"\"\"…\"\"\"` (texts with a newline), for every character except `"`
+
+and it is CHECKED here, behaviourally, that the writers really are what the Lean model assumes they are:
+  * per-character maps: the text of every two-character string over the interesting characters is the
+    concatenation of the texts of its characters (N-Triples, Turtle short form);
+  * the long form is the per-character map plus the two context rules for quotes that the model has built in
+    (`\"\"\"` -> `\\"\\"\\"` leftmost-first, a final `"` -> `\\"`): all strings of length <= 4 over `" \\ x CR` agree
+    with a Python transcription of the model's one-pass writer.
+A writer that cannot be expressed this way raises (core: table extraction failed -> search for a failing input).
 """
-import ast
-import inspect
-import textwrap
+import itertools
+
+ALPHABET = ([chr(i) for i in range(128)] +
+            [chr(c) for c in (0x85, 0xA0, 0xE9, 0x2028, 0x2029, 0x540D, 0xD7FF, 0xE000, 0xFEFF, 0xFFFD, 0xFFFE, 0xFFFF,
+                              0x10000, 0x1F600, 0x10FFFF)])
+_S = "urn:x-probe-s"
+_P = "http://www.w3.org/1999/02/22-rdf-syntax-ns#value"
 
 
-def _chain_of(expr):
-    """x.replace(a,b).replace(c,d) -> (base_expr, [(a,b),(c,d)]) in application order"""
-    steps = []
-    while (isinstance(expr, ast.Call) and isinstance(expr.func, ast.Attribute) and expr.func.attr == "replace"
-           and len(expr.args) == 2 and all(isinstance(a, ast.Constant) and isinstance(a.value, str) for a in expr.args)):
-        steps.append((expr.args[0].value, expr.args[1].value))
-        expr = expr.func.value
-    return expr, list(reversed(steps))
+def _object_text(text, fmt):
+    """what rdflib's `fmt` writer (nt | turtle) writes for the plain literal `text` in object position"""
+    from rdflib import Graph, Literal, URIRef
+    g = Graph(bind_namespaces="none")
+    g.bind("rdf", URIRef("http://www.w3.org/1999/02/22-rdf-syntax-ns#"))
+    g.add((URIRef(_S), URIRef(_P), Literal(text)))
+    out = g.serialize(format=fmt)
+    i = out.index("<" + _S + "> ")
+    rest = out[i + len(_S) + 3:]
+    rest = rest[rest.index(" ") + 1:].rstrip()
+    if not rest.endswith("."):
+        raise ValueError(f"{fmt}: cannot find the object text in {out!r}")
+    return rest[:-1].rstrip(" ")
 
 
-def _all_chains(node):
-    """every maximal replace-chain below `node`, in source order"""
-    out = []
+def _between(text, open_, close, what):
+    if not (text.startswith(open_) and text.endswith(close) and len(text) >= len(open_) + len(close)):
+        raise ValueError(f"{what}: {text!r} is not {open_}…{close}")
+    return text[len(open_):len(text) - len(close)]
 
-    class V(ast.NodeVisitor):
-        def visit_Call(self, n):  # noqa: N802
-            base, steps = _chain_of(n)
-            if steps:
-                out.append(steps)
-                self.visit(base)
-            else:
-                self.generic_visit(n)
 
-    V().visit(node)
-    return out
+def _model_long(lmap, s):
+    """Python transcription of the Lean one-pass long-form writer `encLong` (quotes: built-in rules; rest: the map)"""
+    out, i, n = [], 0, len(s)
+    while i < n:
+        if s.startswith('"""', i):
+            out.append('\\"\\"\\"')
+            i += 3
+            continue
+        c = s[i]
+        if c == '"':
+            out.append('\\"' if i == n - 1 else '"')
+        else:
+            out.append(lmap.get(c, c))
+        i += 1
+    return "".join(out)
 
 
 def extract():
-    from rdflib import compat, term
-    from rdflib.plugins.serializers import nt
-    t = ast.parse(textwrap.dedent(inspect.getsource(nt._quote_encode)))
-    chains = _all_chains(t)
-    if len(chains) != 1:
-        raise ValueError(f"nt._quote_encode: expected one replace chain, found {chains!r}")
-    nt_chain = chains[0]
-    t = ast.parse(textwrap.dedent(inspect.getsource(term.Literal._quote_encode)))
-    fn = t.body[0]
-    top_if = [s for s in fn.body if isinstance(s, ast.If)]
-    if len(top_if) != 1:
-        raise ValueError("Literal._quote_encode: expected one top-level if")
-    top_if = top_if[0]
-    test = top_if.test
-    if not (isinstance(test, ast.Compare) and isinstance(test.left, ast.Constant) and test.left.value == "\n"
-            and isinstance(test.ops[0], ast.In)):
-        raise ValueError('Literal._quote_encode: branch condition is no longer `"\\n" in self`')
-    long_chains = [c for s in top_if.body for c in _all_chains(s)]
-    short_chains = [c for s in top_if.orelse for c in _all_chains(s)]
-    if len(short_chains) != 1:
-        raise ValueError(f"Literal._quote_encode short branch: {short_chains!r}")
-    flat_long = [st for c in long_chains for st in c]
-    if len(flat_long) != 3 or len(flat_long[1][0]) != 3:
-        raise ValueError(f"Literal._quote_encode long branch: {flat_long!r}")
-    emap = dict(compat._string_escape_map)
-    return {"ntChain": nt_chain, "shortChain": short_chains[0], "long": flat_long, "echarMap": sorted(emap.items())}
+    nt = lambda t: _between(_object_text(t, "nt"), '"', '"', "N-Triples literal")  # noqa: E731
+    ttl = lambda t: _object_text(t, "turtle")  # noqa: E731
+    nt_map, short_map, long_map = {}, {}, {}
+    for c in ALPHABET:
+        w = nt(c)
+        if w != c:
+            nt_map[c] = w
+        if c != "\n":
+            w = _between(ttl(c), '"', '"', "Turtle short literal")
+            if w != c:
+                short_map[c] = w
+    lf_text = _between(ttl("\nx"), '"""', 'x"""', "Turtle long literal")
+    if lf_text != "\n":
+        long_map["\n"] = lf_text
+    for c in ALPHABET:
+        if c in '"\n':
+            continue
+        w = _between(ttl("\n" + c + "x"), '"""' + lf_text, 'x"""', "Turtle long literal")
+        if w != c:
+            long_map[c] = w
+    # per-character maps?  (two-character contexts over the characters that matter)
+    interesting = sorted(set(nt_map) | set(short_map) | set('"\\xnrtu0\' '))
+    for a, b in itertools.product(interesting, repeat=2):
+        if nt(a + b) != nt_map.get(a, a) + nt_map.get(b, b):
+            raise ValueError(f"N-Triples writer is not a per-character map at {a + b!r}")
+        if "\n" not in a + b:
+            got = _between(ttl(a + b), '"', '"', "Turtle short literal")
+            if got != short_map.get(a, a) + short_map.get(b, b):
+                raise ValueError(f"Turtle short-form writer is not a per-character map at {a + b!r}")
+    # long form = map + the built-in quote rules?
+    for n in range(0, 5):
+        for t in itertools.product('"\\x\r', repeat=n):
+            s = "\n" + "".join(t)
+            got = _between(ttl(s), '"""', '"""', "Turtle long literal")
+            if got != _model_long(long_map, s):
+                raise ValueError(f"Turtle long-form writer differs from map + quote rules at {s!r}: {got!r}")
+    try:
+        from rdflib import compat
+        emap = sorted(dict(compat._string_escape_map).items())
+    except Exception:
+        emap = []
+    return {"ntMap": sorted(nt_map.items()), "shortMap": sorted(short_map.items()), "longMap": sorted(long_map.items()),
+            "echarMap": emap}
 
 
 def _ch(c):
@@ -76,24 +118,22 @@ def _str(s):
     return "[" + ", ".join(_ch(c) for c in s) + "]"
 
 
-def _pair(p):
-    return f"({_str(p[0])}, {_str(p[1])})"
+def _table(name, doc, pairs):
+    body = ",\n   ".join(f"({_ch(k)}, {_str(v)})" for k, v in pairs)
+    return [f"/-- {doc} -/", f"def {name} : List (Char × List Char) :=", "  [" + body + "]", ""]
 
 
 def render(d=None):
     d = d or extract()
-    L = ["/- GENERATED by harness/c03tables.py from rdflib's source on every run — do not edit. -/",
-         "namespace RV.C03.Tables", "",
-         "/-- rdflib/plugins/serializers/nt.py:_quote_encode — the `.replace` chain, in application order -/",
-         "def ntChain : List (List Char × List Char) :=",
-         "  [" + ",\n   ".join(_pair(p) for p in d["ntChain"]) + "]", "",
-         "/-- rdflib/term.py:Literal._quote_encode, branch without a newline -/",
-         "def shortChain : List (List Char × List Char) :=",
-         "  [" + ",\n   ".join(_pair(p) for p in d["shortChain"]) + "]", "",
-         "/-- rdflib/term.py:Literal._quote_encode, branch `\"\\n\" in self`: backslashes, then `\"\"\"`, then `\\r` -/"]
-    for i, p in enumerate(d["long"], 1):
-        L.append(f"def longStep{i} : List Char × List Char := {_pair(p)}")
-    L += ["", "/-- rdflib/compat.py:_string_escape_map — the escapes rdflib's readers accept after a backslash -/",
+    L = ["/- GENERATED by harness/c03tables.py from rdflib's BEHAVIOUR on every run — do not edit.",
+         f"   Probe alphabet: {len(ALPHABET)} characters (all of ASCII, NEL, NBSP, LS, PS, BOM, non-characters, non-BMP);",
+         "   a character without an entry is written as itself. -/",
+         "namespace RV.C03.Tables", ""]
+    L += _table("ntMap", "N-Triples writer (serialize(format=\"nt\")): character ↦ text between the quotes", d["ntMap"])
+    L += _table("shortMap", "Turtle writer, short form `\"…\"` (texts without a newline)", d["shortMap"])
+    L += _table("longMap", "Turtle writer, long form (texts with a newline), every character except `\"` "
+                "(quotes follow the two context rules built into the model)", d["longMap"])
+    L += ["/-- rdflib/compat.py:_string_escape_map — the escapes rdflib's readers accept after a backslash -/",
           "def echarMap : List (Char × Char) :=",
           "  [" + ", ".join(f"({_ch(k)}, {_ch(v)})" for k, v in d["echarMap"]) + "]", "",
           "end RV.C03.Tables", ""]
